@@ -330,4 +330,9 @@ add("C03", "outer Jacobian applies the Jacobian to the value", "nifty/cl/lineari
 add("C03", "clip helper refuses None again", "nifty/cl/pointwise.py", "    if not all(a is None or isinstance(a, (float, int) + ALLOWED_WRAPPEES)\n               for a in (a_min, a_max)):", "    if not isinstance(a_min, (float, int) + ALLOWED_WRAPPEES):", "R03.13")
 add("C03", "metric branch returns before the offset is added", "nifty/cl/operators/energy_operators.py", "        if self._offset != 0.:\n            res = res + self._offset\n        if not x.want_metric or self._ic_samp is None:\n            return res\n", "        if not x.want_metric or self._ic_samp is None:\n            if self._offset != 0.:\n                res = res + self._offset\n            return res\n", "R03.9")
 add("C01", "merged block-diagonal factors composed in swapped order", "nifty/cl/operators/block_diagonal_operator.py", "        res = {key: v1(v2)", "        res = {key: v2(v1)", "R01.7")
+add("C12", "complex log-term factor 2 in the local transformation", "nifty/re/likelihood_impl.py", "        fct = jnp.sqrt(2) ** self.iscomplex\n", "        fct = 1 + self.iscomplex\n", "R12.8")
+add("C12", "categorical normalisation summed tree-wide", "nifty/re/likelihood_impl.py", "        return preds * tangents - preds * norm_term", "        return preds * tangents - preds * sum(norm_term)", "R12.11")
+add("C12", "sqrtm jvp divisor on one eigen index", "nifty/re/tree_math/util.py", "dM / (vsq[:, jnp.newaxis] + vsq[jnp.newaxis, :])", "dM / (2.0 * vsq[:, jnp.newaxis])", "R12.10")
+add("C12", "poisson left sqrt clamps the rate", "nifty/re/likelihood_impl.py", "        return tangents / primals**0.5", "        return tangents / jnp.maximum(primals, 1e-6)**0.5", "R12.4")
+add("C12", "one complex flag for the whole tree", "nifty/re/likelihood_impl.py", "        self.iscomplex = tree_map(\n            lambda x: jnp.issubdtype(x.dtype, jnp.complexfloating), data\n        )", "        self.iscomplex = bool(jnp.issubdtype(result_type(data), jnp.complexfloating))", "R12.9")
 VARIANTS = V
